@@ -97,13 +97,16 @@ func VH_C10_C16_ListOfListsVsGrammar() {
 func c16Item(name string) Item {
 	switch vh.Choose(6) {
 	case 0:
-		n := vh.Int64(name + ".n")
+		// magnitude from a 16-bit variable: syntactically bounded, so the engine runs the decimal kernels
+		// (strconv's /100, %100, *10 chains) in ~17 bits instead of 64
+		m := int64(vh.Uint16(name + ".m"))
 		if vh.Tier() == 0 {
-			vh.Assume(n > -1000 && n < 1000)
-		} else {
-			vh.Assume(n > -100000 && n < 100000)
+			vh.Assume(m < 1000)
 		}
-		return n
+		if vh.Choose(2) == 1 {
+			return -m
+		}
+		return m
 	case 1:
 		ext := []int64{-1 << 63, 1<<63 - 1, 1000000000000000000, -999999999999999999, 99999, 100000, -100000, 0, -1, 9, 10}
 		return ext[vh.Choose(len(ext))]
@@ -188,7 +191,7 @@ func c16Check(label Token, keys []string, params Parameters) {
 }
 
 // VH_C16_RoundTripItems: identifier "a" with one parameter "k" whose value is a symbolic item of every kind
-// (int64: all values with |n| < 10^3 (quick) / 10^5 (thorough) plus extreme constants incl. MinInt64/MaxInt64;
+// (int64: all values with |n| < 10^3 (quick) / |n| <= 65535 (thorough) plus extreme constants incl. MinInt64/MaxInt64;
 // string of 0..2 arbitrary bytes; token of 0..2 arbitrary bytes; byte sequence of 0..4 bytes; no value): the
 // writer refuses exactly the invalid items (independent predicate), its output equals an independent
 // serialiser, and parse(serialise(v)) == v.
